@@ -73,3 +73,10 @@ Theorem C16_trigger_stop_is_what_releases :
   tm_public_parked [PRegister 1 0; PFire; PGiveUp] = 1%nat /\ tm_public_parked [PRegister 1 0; PFire; PStop; PGiveUp] = 0%nat.
 Proof. exact parked_without_stop. Qed.
 Print Assumptions C16_trigger_stop_is_what_releases.
+
+(* the context registry after Shutdown: every later request is refused, any number of them, in any order with other
+   operations - the worker on its way out gets an error each time it asks and never a live context *)
+From LH Require Import Contexts ContextsFacts.
+Theorem C16_registry_refuses_after_shutdown : forall ops1 ops2 k, fst (reg_for k (reg_run (ops1 ++ RShutdown :: ops2))) = false.
+Proof. exact refused_after_shutdown. Qed.
+Print Assumptions C16_registry_refuses_after_shutdown.
